@@ -108,7 +108,9 @@ type State struct {
 	nowsAtLastLog int
 	rangeKeys     []Value
 	selectCount   int
+	storeGuard    *Term // set while a defaulting triangle is executed speculatively: stores become guarded
 	ghostlog      map[string]bool
+	ghostlogContract map[string]bool // recorded callees whose own contract describes the results (ghostlog f+contract)
 	doneChans     map[int]*ChanV
 	blocking      int
 	rvStore       map[int]map[string]*Term
